@@ -14,7 +14,8 @@ TOL = 1e-12             # sum of <= 40 positive products evaluated in a differen
 TOL_RI = 1e-7           # header-derived constants vs the library's literals differ by a fixed factor (measured 8.9e-8 / 7.0e-8); fp noise ~1e-15
 ABS_DELTA = 1e-16       # Re = 1 - delta is rounded to a double next to 1.0 (half-spacing 5.6e-17) before we can form 1 - Re
 
-ENERGIES = [0.0, -1.0, 0.5, 1.0, 8.04, 17.4, 59.5, 100.0, 799.0, 1e4 + 1]
+ENERGIES_QUICK = [0.0, -1.0, 0.5, 1.0, 8.04, 17.4, 59.5, 100.0, 799.0, 1e4 + 1]
+ENERGIES = list(ENERGIES_QUICK)
 THETAS = [0.0, 1e-3, math.pi / 4, math.pi / 2, 2.5, math.pi]
 PHIS = [0.0, math.pi / 3, math.pi / 2, 4.0]
 DENSITIES = [-1.0, 0.0, 0.5, 2.7]
@@ -219,7 +220,7 @@ def check_refractive(ck, L, X, names, comps, nist_names, st):
             dlib = 1.0 - float(re.v[r])
             nre += 1
             if dref != 0:
-                st['worst_delta'] = max(st['worst_delta'], abs(dlib - dref) / abs(dref)) if abs(dref) > 1e-9 else st['worst_delta']
+                st['worst_delta'] = max(st['worst_delta'], abs(dlib - dref) / abs(dref)) if abs(dref) > 1e-6 else st['worst_delta']   # statistic only where rounding of Re is negligible
             if not abs(dlib - dref) <= TOL_RI * abs(dref) + ABS_DELTA:
                 ck.violation('c06:Refractive_Index_Re:wrong-delta:%s:%s' % (c['kind'], dclass),
                              '1 - Refractive_Index_Re%s = %r, formula rho*K*sum(w(Z+f\')/A)/E^2 gives %r (rho = %r)' % (call, dlib, dref, rho),
@@ -266,7 +267,12 @@ def check_refractive(ck, L, X, names, comps, nist_names, st):
 
 
 def main(tier):
+    global ENERGIES
     ck = common.Check('C06', tier)
+    if tier == 'thorough':
+        ENERGIES = ENERGIES_QUICK + [0.1, 0.3, 2.0, 5.0, 12.4, 30.0, 88.0, 200.0, 500.0, 1000.0]
+    else:
+        ENERGIES = list(ENERGIES_QUICK)
     st = dict(calls=0, compared=0, worst_cp=0.0, worst_delta=0.0, worst_im=0.0, samples=[], per_function={}, classes=set())
     kissel_fns = ('CS_Photo_Total_CP', 'CSb_Photo_Total_CP', 'CS_Total_Kissel_CP', 'CSb_Total_Kissel_CP')
     ncomp = {}
